@@ -582,7 +582,7 @@ def check_set_order(ctx, f):
         if isinstance(e, ast.Call):
             fn = e.func
             name = fn.id if isinstance(fn, ast.Name) else (fn.attr if isinstance(fn, ast.Attribute) else None)
-            if name in ('sorted', 'len', 'set', 'frozenset', 'sum', 'min', 'max', 'any', 'all'):
+            if name in ('sorted', 'len', 'set', 'frozenset', 'sum', 'min', 'max', 'any', 'all', 'prod'):
                 return False
             if name in ('list', 'tuple', 'array', 'join', 'enumerate', 'iter', 'next', 'product', 'zip', 'reversed') and e.args:
                 if any(is_set(a.value if isinstance(a, ast.Starred) else a) for a in e.args):
@@ -610,6 +610,18 @@ def check_set_order(ctx, f):
                         if isinstance(n, ast.Name) and n.id not in tainted:
                             tainted.add(n.id)
                             changed = True
+            elif isinstance(st, ast.Assign) and len(st.targets) == 1 and isinstance(st.targets[0], ast.Tuple) and \
+                    _tuple_value(f, st.value) is not None and len(_tuple_value(f, st.value).elts) == len(st.targets[0].elts):
+                # element-wise: a, b = (x, y)   /   t = (x, y) ... a, b = t
+                for tgt, val in zip(st.targets[0].elts, _tuple_value(f, st.value).elts):
+                    if tainted_expr(val, tainted):
+                        for n in ast.walk(tgt):
+                            if isinstance(n, ast.Name) and n.id not in tainted:
+                                tainted.add(n.id)
+                                changed = True
+            elif isinstance(st, ast.Assign) and isinstance(st.value, ast.Tuple) and len(st.targets) == 1 and \
+                    isinstance(st.targets[0], ast.Name) and _only_unpacked(f, st.targets[0].id):
+                pass        # a tuple that is only ever unpacked element-wise: handled at the unpacking
             elif isinstance(st, ast.Assign):
                 if tainted_expr(st.value, tainted):
                     for t in st.targets:
@@ -645,6 +657,27 @@ def check_set_order(ctx, f):
                   'a returned value of %s depends on the iteration order of a set (hash randomisation makes it differ '
                   'between processes): %s' % (f.name, ast.unparse(nd.stmt.value)[:80]),
                   inputs='two or more elements in the set')
+
+
+def _tuple_value(f, v):
+    """the tuple display an expression denotes: itself, or the single tuple display assigned to the name"""
+    if isinstance(v, ast.Tuple):
+        return v
+    if isinstance(v, ast.Name):
+        vals = [d.value for d in f.defs if d.name == v.id and d.kind == 'assign' and not d.path]
+        if len(vals) == 1 and isinstance(vals[0], ast.Tuple):
+            return vals[0]
+    return None
+
+
+def _only_unpacked(f, name):
+    """every load of `name` is the whole right-hand side of a tuple-unpacking assignment"""
+    loads = [n for n in ast.walk(f.node) if isinstance(n, ast.Name) and n.id == name and isinstance(n.ctx, ast.Load)]
+    if not loads:
+        return False
+    rhs = {id(st.value) for st in ast.walk(f.node) if isinstance(st, ast.Assign) and len(st.targets) == 1 and
+           isinstance(st.targets[0], ast.Tuple)}
+    return all(id(n) in rhs for n in loads)
 
 
 def _is_set_expr(v):
